@@ -7,8 +7,9 @@
    - D is the generated code of a declaration (import + pack + unpack text).  The cookie is a hash of it; that
      equal cookies mean equal code is the Section hypothesis `same_cookie_same_code` (sha1 collision freedom).
    - an artefact on disk is `Whole d` (a module bisturi wrote completely for d: its LAST line is d's cookie) or
-     `Partial` (a torn file, e.g. left by a crash of the pre-fix in-place writer: it has no cookie line; loading
-     it raises or yields a module without the cookie -- both count as "no matching module").
+     `Partial` (a torn file, e.g. left by a crash of the pre-fix in-place writer: it has no cookie line under the
+     name the current layout uses -- the old writer put the cookie FIRST, under another name (fix D17) --; loading
+     it raises or yields a module without our cookie: both count as "no matching module").
    - the bytecode cache holds (the stamp of the source it was compiled from, the compiled artefact); the
      interpreter uses it instead of the source exactly when the stamps are equal.  Stamps (mtime, size) are
      chosen adversarially, so a stale bytecode file with an equal stamp is covered.
